@@ -56,6 +56,21 @@ fn main() {
     }
     ctx::install_panic_hook();
     let mut c = Ctx::new(&prop, tier, seed, only);
-    if !props::run(&prop, &mut c) { eprintln!("unknown property {}", prop); std::process::exit(2); }
+    // a panic that escapes a generator or an oracle (typically an `unwrap` on a result of the code under test that the
+    // unchanged code never fails) must not end the run without a verdict: it is recorded as an oracle failure of the current
+    // case — replayable with `--only <case_id>` — and everything found before it is kept
+    let known = {
+        let cref = std::panic::AssertUnwindSafe(&mut c);
+        ctx::guard(move || { let std::panic::AssertUnwindSafe(c) = cref; props::run(&prop, c) })
+    };
+    match known {
+        Ok(true) => {}
+        Ok(false) => { eprintln!("unknown property"); std::process::exit(2); }
+        Err((site, msg)) => {
+            let cur = c.cur;
+            c.oracle_fail(&format!("harness-panic@{}", site), &format!("the run stopped in case {}: {}", cur, msg.chars().take(300).collect::<String>()),
+                serde_json::json!({"replay": format!("vharness <prop> --seed {} --only {}", seed, cur), "panic_site": site}));
+        }
+    }
     c.finish(&out, &drv).expect("write result");
 }
